@@ -38,6 +38,21 @@ OPS.update({
 RANGE_MARKERS = ('DW_OP_lo_user', 'DW_OP_hi_user')
 
 
+def registry_opcodes():
+    """operation name -> opcode numbers the vendored registries assign (LLVM Dwarf.def; the hand-entered GNU vendor
+    block of registry/supplement.json): the independent source of the numbers, so that a library table that swaps
+    the numbers of two operations is not its own oracle"""
+    import json
+    import os
+    here = os.path.join(os.path.dirname(os.path.dirname(os.path.abspath(__file__))), 'registry')
+    out = {}
+    for f in ('llvm_dwarf.json', 'supplement.json'):
+        for n, v in json.load(open(os.path.join(here, f)))['names'].items():
+            if n.startswith('DW_OP_'):
+                out.setdefault(n, set()).update(v)
+    return out
+
+
 def _uleb(v):
     out = bytearray()
     while True:
